@@ -375,9 +375,145 @@ pub assume_specification<T: Ord + core::marker::Destruct> [std::cmp::min] (a: T,
 impl<'a> AllVrpMetrics<'a> {
     // borrows the per-TAL, per-repository and global payload counters
     #[verifier::external_body]
-    pub fn new(metrics: &'a mut Metrics, tal_index: usize, repo_index: Option<usize>) -> (r: AllVrpMetrics<'a>)
+    fn new(metrics: &'a mut Metrics, tal_index: usize, repo_index: Option<usize>) -> (r: AllVrpMetrics<'a>)
         requires
             tal_index < old(metrics).tals@.len(),
             repo_index matches Some(i) ==> i < old(metrics).repositories@.len(),
+    { unimplemented!() }
+}
+
+// ---- rpki::repository::roa::RouteOriginAttestation
+#[verifier::external_body] pub struct RouteOriginAttestation { _opaque: () }
+#[verifier::external_body] pub struct RoaOrigins<'a> { _p: &'a RouteOriginAttestation }
+impl<'a> Iterator for RoaOrigins<'a> {
+    type Item = RouteOrigin;
+    #[verifier::external_body]
+    fn next(&mut self) -> Option<RouteOrigin> { unimplemented!() }
+}
+impl RouteOriginAttestation {
+    // the route origins (prefix, max-len, asn) listed in the ROA, in order
+    pub uninterp spec fn origins_spec(&self) -> Seq<RouteOrigin>;
+
+    // (really `impl Iterator<Item = RouteOrigin> + '_`)
+    #[verifier::external_body]
+    pub fn iter_origins(&self) -> (r: RoaOrigins<'_>)
+        ensures r.remaining() == self.origins_spec(), r.obeys_prophetic_iter_laws(), r.decrease() is Some,
+    { unimplemented!() }
+}
+
+// ASSUMED: slice::sort_unstable_by permutes the slice (sortedness is not used).
+pub assume_specification<T, F: FnMut(&T, &T) -> Ordering> [<[T]>::sort_unstable_by] (s: &mut [T], compare: F)
+    ensures final(s)@.to_multiset() == old(s)@.to_multiset(),
+;
+
+// ---- crossbeam_queue::SegQueue: an unbounded MPMC queue with interior
+// mutability. `pushed(q, x)` is a monotone ghost fact: x has been pushed to q.
+#[verifier::external_body] #[verifier::reject_recursive_types(T)] pub struct SegQueue<T> { _t: T }
+pub uninterp spec fn pushed<T>(q: &SegQueue<T>, item: T) -> bool;
+impl<T> SegQueue<T> {
+    #[verifier::external_body]
+    pub fn push(&self, item: T)
+        ensures pushed(self, item),
+    { unimplemented!() }
+
+    // ASSUMED: only pushed items are popped
+    #[verifier::external_body]
+    pub fn pop(&self) -> (r: Option<T>)
+        ensures r matches Some(x) ==> pushed(self, x),
+    { unimplemented!() }
+}
+
+#[verifier::external_body] pub struct IpBlock { _opaque: () }
+#[verifier::external_body] pub struct AsBlock { _opaque: () }
+
+// ---- certificates and signed objects (rpki::repository)
+#[verifier::external_body] pub struct Cert { _opaque: () }
+#[verifier::external_body] pub struct ResourceCert { _opaque: () }
+#[verifier::external_body] pub struct CaCert { _opaque: () }
+#[verifier::external_body] pub struct TalInfo { _opaque: () }
+#[verifier::external_body] #[derive(Clone, Copy)] pub struct Validity { _opaque: u8 }
+#[verifier::external_body] pub struct AsResources { _opaque: () }
+#[verifier::external_body] pub struct PublicKey { _opaque: () }
+#[verifier::external_body] pub struct Bytes { _opaque: () }
+#[verifier::external_body] pub struct KeyInfoError { _opaque: () }
+#[verifier::external_body] pub struct AsBlocksError { _opaque: () }
+#[verifier::external_body] pub struct Failed { _opaque: () }
+#[verifier::external_body] pub struct AsProviderAttestation { _opaque: () }
+
+impl Validity {
+    #[verifier::external_body]
+    pub fn not_after(self) -> Time { unimplemented!() }
+}
+impl AsResources {
+    pub uninterp spec fn blocks_spec(&self) -> Result<AsBlocks, AsBlocksError>;
+    #[verifier::external_body]
+    pub fn is_inherited(&self) -> bool { unimplemented!() }
+    #[verifier::external_body]
+    pub fn is_present(&self) -> bool { unimplemented!() }
+    #[verifier::external_body]
+    pub fn to_blocks(&self) -> (r: Result<AsBlocks, AsBlocksError>) ensures r == self.blocks_spec(),
+    { unimplemented!() }
+}
+impl PublicKey {
+    #[verifier::external_body]
+    pub fn allow_router_cert(&self) -> bool { unimplemented!() }
+    #[verifier::external_body]
+    pub fn to_info_bytes(&self) -> Bytes { unimplemented!() }
+}
+impl RouterKeyInfo {
+    #[verifier::external_body]
+    pub fn new(bytes: Bytes) -> Result<RouterKeyInfo, KeyInfoError> { unimplemented!() }
+}
+impl Cert {
+    pub uninterp spec fn as_resources_spec(&self) -> &AsResources;
+    pub uninterp spec fn ski_spec(&self) -> KeyIdentifier;
+    #[verifier::external_body]
+    pub fn as_resources(&self) -> (r: &AsResources) ensures r == self.as_resources_spec(),
+    { unimplemented!() }
+    #[verifier::external_body]
+    pub fn subject_key_identifier(&self) -> (r: KeyIdentifier) ensures r == self.ski_spec(),
+    { unimplemented!() }
+    #[verifier::external_body]
+    pub fn subject_public_key_info(&self) -> &PublicKey { unimplemented!() }
+    #[verifier::external_body]
+    pub fn validity(&self) -> Validity { unimplemented!() }
+    #[verifier::external_body]
+    pub fn tal(&self) -> &Arc<TalInfo> { unimplemented!() }
+}
+impl ResourceCert {
+    #[verifier::external_body]
+    pub fn validity(&self) -> Validity { unimplemented!() }
+}
+impl CaCert {
+    #[verifier::external_body]
+    pub fn cert(&self) -> &ResourceCert { unimplemented!() }
+}
+impl ResourceCert {
+    #[verifier::external_body]
+    pub fn tal(&self) -> &Arc<TalInfo> { unimplemented!() }
+}
+impl PublishInfo {
+    #[verifier::external_body]
+    pub fn router_cert(cert: &Cert, uri: &UriRsync, tal: Arc<TalInfo>, validity: Validity, point_stale: Time) -> PublishInfo
+    { unimplemented!() }
+    #[verifier::external_body]
+    pub fn signed_object(cert: &ResourceCert, validity: Validity, point_stale: Time) -> PublishInfo
+    { unimplemented!() }
+}
+impl AsProviderAttestation {
+    pub uninterp spec fn customer_spec(&self) -> Asn;
+    pub uninterp spec fn providers_spec(&self) -> SmallAsnSet;
+    #[verifier::external_body]
+    pub fn customer_as(&self) -> (r: Asn) ensures r == self.customer_spec(),
+    { unimplemented!() }
+    #[verifier::external_body]
+    pub fn provider_as_set(&self) -> (r: &ProviderAsSet) ensures r.to_set_spec() == self.providers_spec(),
+    { unimplemented!() }
+}
+#[verifier::external_body] pub struct ProviderAsSet { _opaque: () }
+impl ProviderAsSet {
+    pub uninterp spec fn to_set_spec(&self) -> SmallAsnSet;
+    #[verifier::external_body]
+    pub fn to_set(&self) -> (r: SmallAsnSet) ensures r == self.to_set_spec(),
     { unimplemented!() }
 }
